@@ -81,6 +81,7 @@ const (
 	// only with Engine.Ext:
 	EvMapDelete   // delete(m, k): Args = [m, k]
 	EvAppendSlice // append(base, other...) with an unknown number of values: Slice = base, Args = [other], Val = result
+	EvLoadElem    // first read of the (never written) element Slice[Idx]: Val = the symbolic element
 )
 
 type Event struct {
@@ -872,6 +873,9 @@ func (f *frame) elemBase(p ElemPtr) Val {
 	}
 	v := e.elemSym(p.sl, p.idx)
 	p.sl.content[k] = v
+	if e.Ext {
+		f.r.events = append(f.r.events, Event{Kind: EvLoadElem, Slice: p.sl, Idx: p.idx, Val: v, Loop: f.r.curLoop(), In: f.fn})
+	}
 	return v
 }
 
@@ -1357,6 +1361,12 @@ func (f *frame) sliceOp(x *ssa.Slice) Val {
 				}
 				return so
 			}
+		}
+	}
+	if pv, isPtr := base.(PtrV); isPtr && e.Ext && x.Max == nil {
+		// (Ext) constant sub-range of a local array — make([]T, 0) is lowered to `new [0]T` + t[:0]
+		if so, ok := f.constSubArray(pv, x, name); ok {
+			return so
 		}
 	}
 	so, ok := base.(*SliceObj)
